@@ -46,3 +46,129 @@ Theorem C03_sink_gets_line_iff : forall s e ks k, NoDup ks -> In k ks ->
    forall pre post, ks = pre ++ k :: post -> some_throws s e pre = false).
 Proof. exact written_iff. Qed.
 Print Assumptions C03_sink_gets_line_iff.
+
+(* ---------------------------------------------------------------------------------------------
+   "... including threads logging for the first time": the thread-context registration / cache-refresh
+   protocol below the granularity of M-BE (Backend/RegProto.v).  M-BE registers a context in ONE
+   frontend step (FReg: append to the registry + raise the flag) and refreshes the backend's cache in
+   ONE backend step (refresh: if the flag is up, clear it and copy the registry).  In the code a
+   registration is lock ; push_back ; unlock, then a store to the flag, and a refresh is a load of the
+   flag, a separate store(false), then the rebuild under the lock.  These theorems are what justifies
+   the atomic steps: with append-before-flag and consume-before-rebuild (what tools/srcfacts.py reads
+   from ThreadContextManager.h / BackendWorker.h on every run) no interleaving of the micro-steps loses
+   a context, and every micro-step run is a run of the atomic machine, call by call. *)
+From Quill Require Import Backend.RegProto Backend.RegProtoProofs.
+From Quill Require TieC03.
+
+(* T-src: register_thread_context appends under the lock, then raises the flag *)
+Theorem C03_reg_tie_append_before_flag : QuillGen.SrcFacts.tcm_register_append_before_flag = true.
+Proof. exact TieC03.src_tcm_register_append_before_flag. Qed.
+Print Assumptions C03_reg_tie_append_before_flag.
+
+(* T-src: _update_active_thread_contexts_cache consumes the flag, then rebuilds the cache *)
+Theorem C03_reg_tie_consume_before_rebuild : QuillGen.SrcFacts.be_cache_rebuild_after_flag_consume = true.
+Proof. exact TieC03.src_be_cache_rebuild_after_flag_consume. Qed.
+Print Assumptions C03_reg_tie_consume_before_rebuild.
+
+(* T-src: new_thread_context_flag() is an exchange(false), a load followed by store(false), or a
+   compare_exchange_strong(true -> false): the shapes the model covers *)
+Theorem C03_reg_tie_consume_shape : TieC03.flag_consume_known QuillGen.SrcFacts.tcm_flag_consume_shape = true.
+Proof. exact TieC03.src_tcm_flag_consume_shape_known. Qed.
+Print Assumptions C03_reg_tie_consume_shape.
+
+(* T-src: the registry is only touched inside critical sections of the spinlock, whose lock is an
+   acquire and whose unlock is a release (what makes FAppend / BRebuild single steps) *)
+Theorem C03_reg_tie_lock : QuillGen.SrcFacts.tcm_for_each_under_lock = true /\ QuillGen.SrcFacts.spinlock_acquire_release = true.
+Proof. exact (conj TieC03.src_tcm_for_each_under_lock TieC03.src_spinlock_acquire_release). Qed.
+Print Assumptions C03_reg_tie_lock.
+
+(* every schedule of micro-steps (every list: steps out of program order are not enabled), any number
+   of registering threads, the flag consumed by one exchange (ca = true) or by load ; store (ca = false):
+   in every reachable state the cache is a duplicate-free prefix of the duplicate-free registry (each
+   context once, in registration order, nothing that is not registered); a context whose registration
+   call is over (its flag store is done) is in the registry and is cached already or a rebuild is due
+   (the flag is up or the backend is between its load and its rebuild); one more whole refresh call
+   caches it and it stays cached whatever happens next; and if no registration is half-way the cache
+   then equals the registry *)
+Theorem C03_reg_no_context_lost : forall ca ops,
+  let fl := {| append_first := true; consume_atomic := ca; consume_first := true |} in
+  let s := rp_run fl rp0 ops in
+  NoDup (reg s) /\ NoDup (cache s) /\ (exists suf, reg s = cache s ++ suf) /\
+  (forall t, In t (flagged s) ->
+     In t (reg s) /\ (In t (cache s) \/ flag s = true \/ rbst s = RSaw \/ rbst s = RCleared)) /\
+  (let d := rp_run fl s (refresh_call fl) in
+   reg d = reg s /\
+   (forall t, In t (flagged s) -> forall more, In t (cache (rp_run fl d more))) /\
+   ((forall t, In t (reg s) -> In t (flagged s)) -> cache d = reg s)).
+Proof. exact rp_no_lost. Qed.
+Print Assumptions C03_reg_no_context_lost.
+
+(* the same for the flags read from the source (the statement is about the code as it is now) *)
+Theorem C03_reg_no_context_lost_src : forall ops,
+  let fl := TieC03.rp_src_flags in
+  let s := rp_run fl rp0 ops in
+  NoDup (reg s) /\ NoDup (cache s) /\ (exists suf, reg s = cache s ++ suf) /\
+  (forall t, In t (flagged s) ->
+     In t (reg s) /\ (In t (cache s) \/ flag s = true \/ rbst s = RSaw \/ rbst s = RCleared)) /\
+  (let d := rp_run fl s (refresh_call fl) in
+   reg d = reg s /\
+   (forall t, In t (flagged s) -> forall more, In t (cache (rp_run fl d more))) /\
+   ((forall t, In t (reg s) -> In t (flagged s)) -> cache d = reg s)).
+Proof. exact TieC03.rp_no_lost_src. Qed.
+Print Assumptions C03_reg_no_context_lost_src.
+
+(* the micro-step protocol of the source refines the atomic machine, call by call: the atomic trace
+   (rp_trace: AReg t inside the interval of t's registration call, ARefresh at the last micro-step of
+   each refresh call) reaches the abstraction of the micro state (same cache), registers exactly the
+   effective registrations in registry order, each once, has one ARefresh per completed refresh call,
+   and what is registered but not yet effective are exactly appended contexts whose flag store is
+   still to come *)
+Theorem C03_reg_refines_atomic : forall ops,
+  let fl := TieC03.rp_src_flags in
+  let s := rp_run fl rp0 ops in
+  let tr := rp_trace fl rp0 ops in
+  ra_run arp0 tr = rabs s /\
+  regs_of tr = areg s /\ NoDup (regs_of tr) /\
+  refreshes_of tr = calls_done fl rp0 ops /\
+  (exists suf, reg s = areg s ++ suf /\ forall t, In t suf -> ~ In t (flagged s)) /\
+  (exists suf, areg s = cache s ++ suf).
+Proof. exact TieC03.rp_refines_atomic_src. Qed.
+Print Assumptions C03_reg_refines_atomic.
+
+(* ... and that atomic machine is the registration / refresh part of M-BE: on (registered, newflag,
+   cache), FReg of a live thread is AReg and refresh is ARefresh *)
+Theorem C03_reg_atomic_is_MBE : forall K s,
+  (forall t, tvalid (th s t) = true -> be_proj (fstep K s (FReg t)) = ra_step (be_proj s) (AReg t)) /\
+  be_proj (refresh K s) = ra_step (be_proj s) ARefresh.
+Proof. exact (fun K s => conj (be_freg_is_areg K s) (be_refresh_is_arefresh K s)). Qed.
+Print Assumptions C03_reg_atomic_is_MBE.
+
+(* flag before append (register_thread_context raising the flag before it takes the lock): the backend
+   consumes the flag and rebuilds between the two steps; the registration completes, the flag is down,
+   and no number of later refresh calls ever caches the context: its queue is never read *)
+Theorem C03_reg_flag_before_append_refuted : forall ca,
+  let fl := {| append_first := false; consume_atomic := ca; consume_first := true |} in
+  let s := rp_run fl rp0 ([FFlag 0] ++ refresh_call fl ++ [FAppend 0]) in
+  reg s = [0]%nat /\ flagged s = [0]%nat /\ cache s = [] /\ flag s = false /\ rbst s = RIdle /\
+  forall n, let d := rp_run fl s (refresh_calls fl n) in reg d = [0]%nat /\ cache d = [].
+Proof. exact rp_flag_first_refuted. Qed.
+Print Assumptions C03_reg_flag_before_append_refuted.
+
+(* rebuild before the flag is cleared: a registration completing in between is wiped out with the flag *)
+Theorem C03_reg_rebuild_before_consume_refuted : forall ca,
+  let fl := {| append_first := true; consume_atomic := ca; consume_first := false |} in
+  let s := rp_run fl rp0 [FAppend 0; FFlag 0; BLoad; BRebuild; FAppend 1; FFlag 1; if ca then BExchange else BStore] in
+  reg s = [0; 1]%nat /\ flagged s = [1; 0]%nat /\ cache s = [0]%nat /\ flag s = false /\ rbst s = RIdle /\
+  forall n, let d := rp_run fl s (refresh_calls fl n) in reg d = [0; 1]%nat /\ cache d = [0]%nat.
+Proof. exact rp_rebuild_first_refuted. Qed.
+Print Assumptions C03_reg_rebuild_before_consume_refuted.
+
+(* non-vacuity: the source's protocol (load ; store) with a registration completing between the
+   backend's load and its store, and one appended between the store and the rebuild and flagged later *)
+Example C03_reg_nonvacuous :
+  let s := rp_run rfl_src rp0 rp_nonvacuous_schedule in
+  reg s = [0; 1; 2]%nat /\ cache s = [0; 1; 2]%nat /\ flag s = false /\ rbst s = RIdle /\
+  cache (rp_run rfl_src rp0 (firstn 8 rp_nonvacuous_schedule)) = [0; 1; 2]%nat /\
+  rp_trace rfl_src rp0 rp_nonvacuous_schedule = [AReg 0; AReg 1; AReg 2; ARefresh; ARefresh; ARefresh; ARefresh] /\
+  calls_done rfl_src rp0 rp_nonvacuous_schedule = 4%nat.
+Proof. exact rp_nonvacuous. Qed.
